@@ -168,6 +168,7 @@ class DllReal:
 
 def run_C17(tier):
     t0 = time.time()
+    shutil.rmtree(os.path.join(mcdriver.OUT, 'replays', 'C17'), ignore_errors=True)   # replays of an earlier run are not this run's
     L = build_dll()
     n = int(os.environ.get("VERIF_C17_N", 0)) or (5 if tier == "quick" else 7)
     init = DllModel(n)
@@ -251,6 +252,7 @@ def build_time(d, cpp):
 
 def run_C18(tier):
     t0 = time.time()
+    shutil.rmtree(os.path.join(mcdriver.OUT, 'replays', 'C18'), ignore_errors=True)   # replays of an earlier run are not this run's
     d = scratch()
     from concurrent.futures import ThreadPoolExecutor
     jobs = []
@@ -311,6 +313,7 @@ EP_NAMES = ["cv_wait /", "cv_wait+note", "cv_wait(reader)", "mu_wait(cond false)
 
 def run_C15(tier):
     t0 = time.time()
+    shutil.rmtree(os.path.join(mcdriver.OUT, 'replays', 'C15'), ignore_errors=True)   # replays of an earlier run are not this run's
     d = scratch()
     from concurrent.futures import ThreadPoolExecutor
     jobs = []
